@@ -422,6 +422,13 @@ def f7(prog, env, W, R, prefix, tag):
             loops = [a for a in runner.ancestors(n) if a["k"] in ("while", "loop", "for")]
             # the per-frame loop must be inside (not outside) the only spawn: one task per connection, frames handled in order
             ok = len(spawns) == 1 and loops and all(any(x is l for x in ir.walk(spawns[0])) for l in loops)
+            lp = loops[0] if loops else None
+            if lp is not None:
+                from ..common import inner_cond
+                ic = inner_cond(env.flow(runner), n, lp["body"])
+                extra = [a for a in atoms_of(ic) if not a.startswith(("ok(", "some("))]
+                R.judge(not extra, prefix + ".F7", key(runner, "every received frame is dispatched (none filtered out)" + tag, i), n["sp"], show(ic),
+                        "frames are dispatched only under `%s`: a skipped frame is never acknowledged, so the sender's FIFO ACK pairing shifts by one" % show(ic))
             awaited = runner.parents().get(id(n), {}).get("k") == "await"
             R.judge(ok and awaited, prefix + ".F7", key(runner, "frames of one connection are dispatched sequentially" + tag, i), n["sp"], "",
                     "dispatch is not awaited inside the per-connection frame loop (frames may be handled concurrently / replies reordered)")
